@@ -573,13 +573,24 @@ func ListAt(b Base) bool {
 // (harness/c15t_test.go does, on every run); the engine itself does not verify loops
 // over maps, hence "trusted".
 func PostgresTable(b Base) bool {
-	return Builtin(b) && RangAt(b) && ListAt(b) && !Registered(b, expr.Fuzzy) && !Registered(b, expr.Boost)
+	return Builtin(b) && RangAt(b) && ListAt(b) && LeafFnsAgree(b) && !Registered(b, expr.Fuzzy) && !Registered(b, expr.Boost)
+}
+
+// LeafFnsAgree: plain values, wildcard patterns and regular expressions are rendered by the
+// same function.  (The JSON decoder re-infers the kind of a string leaf from its text, so a
+// decoded tree may hold a WILD where the original held a LITERAL: C12 requires both to
+// render to identical SQL.)
+func LeafFnsAgree(b Base) bool {
+	l, okl := b.RenderFNs[expr.Literal]
+	w, okw := b.RenderFNs[expr.Wild]
+	r, okr := b.RenderFNs[expr.Regexp]
+	return okl && okw && okr && verifspec.SameFn(l, w) && verifspec.SameFn(w, r)
 }
 
 //@ func NewPostgresDriver
 //@   trusted
 //@   props C15 C14
-//@   ensures Builtin(result.Base) && RangAt(result.Base) && ListAt(result.Base)
+//@   ensures Builtin(result.Base) && RangAt(result.Base) && ListAt(result.Base) && LeafFnsAgree(result.Base)
 //@   ensures !Registered(result.Base, expr.Fuzzy) && !Registered(result.Base, expr.Boost)
 
 // LemmaDecodedBoundaryRenderable: a decoded range boundary (two decoded leaves) can be rendered.
